@@ -1,8 +1,7 @@
 import Props.Reach
 import Proofs.EConnect
 import Proofs.SpecParse
-import Proofs.Tie.Encode
-import Proofs.Tie.Enc
+import Proofs.EncodeFields
 /-!
 # C02 — everything WriteTo emits is a structurally valid MQTT v5.0 frame
 
@@ -122,23 +121,5 @@ example :
     let w : Publish := { topicName := [0x74], payload := [0x70], contentType := [0x63] }
     let c : Connect := ((Connect.new.setWill w).setUsername [0x75]).setPassword [0x73]
     (c.abs).legal = true ∧ c.flags = 0xc4 := by decide +kernel
-
-/-- **the encoder these theorems are about is the one in /repo's source**: each packet type's `fill`
-method, translated statement by statement from the Go source on every run
-(`Mq/Generated/Enc.lean`, with `variableHeader`, `payload`, `properties` and the will closure it
-calls), is the hand-written filler that `Packet.encodeG_eq` proves equal to `Packet.encode`.
-CONNECT by cases: will attached, or will flag clear. -/
-theorem C02_encoder_from_source :
-    (∀ p, Gen.ConnAck.fill p = p.fillG) ∧ (∀ p, Gen.Publish.fill p = p.fillG)
-    ∧ (∀ p, Gen.PubAck.fill p = p.fillG) ∧ (∀ p, Gen.PubRec.fill p = p.fillG) ∧ (∀ p, Gen.PubRel.fill p = p.fillG)
-    ∧ (∀ p, Gen.PubComp.fill p = p.fillG) ∧ (∀ p, Gen.Subscribe.fill p = p.fillG) ∧ (∀ p, Gen.SubAck.fill p = p.fillG)
-    ∧ (∀ p, Gen.Unsubscribe.fill p = p.fillG) ∧ (∀ p, Gen.UnsubAck.fill p = p.fillG) ∧ (∀ p, Gen.PingReq.fill p = p.fillG)
-    ∧ (∀ p, Gen.PingResp.fill p = p.fillG) ∧ (∀ p, Gen.Disconnect.fill p = p.fillG) ∧ (∀ p, Gen.Auth.fill p = p.fillG)
-    ∧ (∀ (p : Connect) w, p.will = some w → p.fillG? = some (Gen.Connect.fill p w))
-    ∧ (∀ (p : Connect) w, has p.flags Connect.fWillFlag = false → p.fillG? = some (Gen.Connect.fill p w)) :=
-  ⟨Tie.Enc.connack_fill, Tie.Enc.publish_fill, Tie.Enc.pubAck_fill, Tie.Enc.pubRec_fill, Tie.Enc.pubRel_fill,
-   Tie.Enc.pubComp_fill, Tie.Enc.subscribe_fill, Tie.Enc.subAck_fill, Tie.Enc.unsubscribe_fill, Tie.Enc.unsubAck_fill,
-   Tie.Enc.pingreq_fill, Tie.Enc.pingresp_fill, Tie.Enc.disconnect_fill, Tie.Enc.auth_fill,
-   Tie.Enc.connect_fill_will, Tie.Enc.connect_fill_noflag⟩
 
 end Mq
